@@ -454,10 +454,12 @@ class Sim:
         if failed:
             nf = 0
             fail_seq = {}
+            fail_t = []
             for ev in tr:
                 if ev['ev'] == 'finish' and ev['status'] != 0:
                     nf += 1
                     fail_seq[ev['edge']] = ev['seq']
+                    fail_t.append(ev.get('t'))
                 if ev['ev'] == 'start':
                     e = self.edge_by_key(ev['edge'])
                     need = transitive_producers(g, e, disc)
@@ -465,6 +467,10 @@ class Sim:
                     if bad:
                         self.add('C05', 'started although a producer failed', dict(edge=ev['edge'], failed=bad), edges=[ev['edge']])
                     if nf >= nfail_allowed:
+                        # with real processes ninja learns of a failure only when it reaps the command: a start within
+                        # 150 ms of the exit of the command that used up the budget is not evidence of anything
+                        if ev.get('t') is not None and fail_t[nfail_allowed - 1] is not None and ev['t'] - fail_t[nfail_allowed - 1] < 150e6:
+                            continue
                         self.add('C05', 'started after the failure budget was used up', dict(edge=ev['edge'], failures=nf, k=k))
             if res['status'] == 0:
                 self.add('C05', 'exit status 0 although a command failed', dict(failed=failed))
@@ -473,7 +479,7 @@ class Sim:
                 if res['status'] not in codes:
                     self.add('C05', 'exit status not taken from a failed command', dict(status=res['status'], codes=sorted(codes)))
             # records: nothing new for failed edges
-            for fk in failed:
+            for fk in ([] if res.get('no_logs') else failed):
                 e = self.edge_by_key(fk)
                 for o in all_outs(e):
                     want = self.model.rec.get(o)
@@ -486,9 +492,23 @@ class Sim:
                         self.add('C05', 'deps-log record changed for an output of a failed command', dict(out=o, got=gd, model=wd))
             # completeness while the budget lasted
             if len(failed) < nfail_allowed:
+                # statements that are part of the build only through what a dyndep file adds are unknown while the
+                # statement producing that file has failed
+                prod_ = producer_map(g)
+                known0, todo_ = set(), list(targets)
+                while todo_:
+                    n_ = todo_.pop()
+                    pe_ = prod_.get(n_)
+                    if pe_ is None or key(pe_) in known0:
+                        continue
+                    known0.add(key(pe_))
+                    todo_ += pe_['exp'] + pe_['imp'] + pe_['oo'] + list(disc.get(key(pe_), [])) + pe_.get('vals', []) + ([pe_['dd']] if pe_.get('dd') else [])
+                dd_failed = any(self.edge_by_key(f_).get('is_dd_producer') for f_ in failed)
                 for rk in pred['run']:
                     e = self.edge_by_key(rk)
                     if rk in started:
+                        continue
+                    if dd_failed and rk not in known0:
                         continue
                     need = transitive_producers(g, e, disc)
                     if not any(f in need for f in failed):
@@ -498,7 +518,7 @@ class Sim:
                 self.add('C03', 'unneeded command run', dict(extra=extra, pred=pred['run'], why=pred['why']))
             # successful commands are recorded even after a failure
             for sk, f in fins.items():
-                if f['status'] == 0:
+                if f['status'] == 0 and not res.get('no_logs'):
                     for o in all_outs(self.edge_by_key(sk)):
                         if o not in res['log']:
                             self.add('C05', 'successful command not recorded in a failing build', dict(out=o))
@@ -690,6 +710,8 @@ class Sim:
             started = [ev['edge'] for ev in starts]
             ok = res['status'] == 0 and res['phase'] in ('build', 'uptodate')
             orders.add(tuple(ev['edge'] for ev in tr if ev['ev'] == 'finish'))
+            if 'log' not in res:     # the forked explorers share one pair of log files: not dumped, not judged
+                res['no_logs'] = True
             res.setdefault('log', {})
             res.setdefault('deps', {})
             saved = self.files
